@@ -1,10 +1,13 @@
 #!/bin/bash
 # Re-runs the check of its property against every stored seeded change (regression of the detection, after generator changes).
-# Meant for `vp run --with-repo -- tools/recheck_all.sh` (uses $VP_RUN_REPO when set) or directly in /verif (uses /repo).
+# Meant for `vp run --with-repo -- tools/recheck_all.sh [k n]` (uses $VP_RUN_REPO when set; shard k of n) or directly in /verif (uses /repo).
 cd "$(dirname "$0")/.."
 [ -n "$VP_RUN_REPO" ] && export VERIF_REPO=$VP_RUN_REPO
+k=${1:-0}; n=${2:-1}
 python3 verif.py setup || exit 2
+i=0
 for d in seeded/C*; do
-  n=$(basename $d)
-  python3 tools/seed_eval.py $d $n --recheck 2>&1 | grep -E "confirmed=" 
+  i=$((i+1)); [ $((i % n)) -eq $k ] || continue
+  name=$(basename $d)
+  python3 tools/seed_eval.py $d $name --recheck 2>&1 | grep -E "confirmed="
 done
